@@ -1042,3 +1042,147 @@ def dead_tail_modules(per_module=30, sample=None, rng=None):
         ast, lines = layout(module, defmarks=marks)
         mods.append({"ast": ast, "lines": lines, "dead_tail": labels})
     return mods
+
+
+# ---------------------------------------------------------------------------------------
+# 'all arms terminate' compositions: a multi-arm statement whose arms INDEPENDENTLY end in return / raise / break / continue /
+# fall through, placed (directly or through if / with / loop) in a clause of an outer frame that has a finally (or is a with),
+# at nesting depth 2 and 3, markers in every finally and after every frame.  When every arm leaves through a jump, the cleanup
+# clauses of the outer frames are reachable ONLY through the edges the jumps take on their way out.
+# (Separate from FRAMES / enum_frame_bodies, which C02-C04 enumerate: nothing of those changes.)
+# ---------------------------------------------------------------------------------------
+ARM_TERMS = ('return', 'raise', 'break', 'continue', 'none')
+
+
+def _arm(t):
+    return [_S()] if t == 'none' else [_S(), (t, 0)]
+
+
+AA_INNER = {
+    # name: (number of arms, arms -> statement)
+    'if_else': (2, lambda a: ('if', 0, a[0], [], a[1])),
+    'if_elif_else': (3, lambda a: ('if', 0, a[0], [(0, a[1])], a[2])),
+    'try_exc': (2, lambda a: ('try', 0, a[0], [(0, a[1])], None, None)),
+    'try_exc2': (3, lambda a: ('try', 0, a[0], [(0, a[1]), (0, a[2])], None, None)),
+    'try_body_exc_else': (3, lambda a: ('try', 0, a[0], [(0, a[1])], a[2], None)),
+    'match2': (2, lambda a: ('match', 0, [(0, a[0]), (0, a[1])])),
+    'with': (1, lambda a: ('with', 0, a[0])),
+}
+
+AA_MID = {
+    # what sits between the clause of the outer frame and the inner statement: (block -> block, gives a loop to the inner arms)
+    'direct': (lambda b: b, False),
+    'if': (lambda b: [('if', 0, b, [], None)], False),
+    'if_else': (lambda b: [('if', 0, [_S(), ('return', 0)], [], b)], False),
+    'with': (lambda b: [('with', 0, b)], False),
+    'while': (lambda b: [('while', 0, b, None)], True),
+    'for_else': (lambda b: [('for', 0, b, [_S(), ('return', 0)])], True),
+}
+
+AA_OUTER = {
+    # frames with a cleanup clause; h = the block in the hole, t = how the OTHER arms of the frame end (so that 'every arm of
+    # the outer frame terminates' occurs as well); tf_fin has the hole inside the finally clause itself
+    'tf_body': lambda h, t: ('try', 0, h, [], None, [_S()]),
+    'tef_body': lambda h, t: ('try', 0, h, [(0, _arm(t))], None, [_S()]),
+    'tef_handler': lambda h, t: ('try', 0, [_S()], [(0, h)], None, [_S()]),
+    'tef_handler2': lambda h, t: ('try', 0, [_S()], [(0, _arm(t)), (0, h)], None, [_S()]),
+    'tef_else': lambda h, t: ('try', 0, [_S()], [(0, _arm(t))], h, [_S()]),
+    'tf_fin': lambda h, t: ('try', 0, _arm(t), [], None, h + [_S()]),
+    'with': lambda h, t: ('with', 0, h),
+}
+
+AA_MIDDLE = {
+    # depth 3: a try/except WITHOUT finally between the outer frame and the inner statement (other arms end in t)
+    'te_body': lambda h, t: ('try', 0, h, [(0, _arm(t))], None, None),
+    'te_handler': lambda h, t: ('try', 0, [_S()], [(0, h)], None, None),
+    'te_else': lambda h, t: ('try', 0, [_S()], [(0, _arm(t))], h, None),
+    # ... and one WITH a finally of its own (the jump passes two cleanup clauses)
+    'tf_body': lambda h, t: ('try', 0, h, [], None, [_S()]),
+    'tef_handler': lambda h, t: ('try', 0, [_S()], [(0, h)], None, [_S()]),
+}
+
+AA_WRAP = {
+    # what the outermost frame sits in: (statement -> block, loop for everything inside)
+    'plain': (lambda s: [s, _S()], False),
+    'while': (lambda s: [('while', 0, [s, _S()], None), _S()], True),
+    'for_else': (lambda s: [('for', 0, [s], [_S()]), _S()], True),
+}
+
+
+def all_arms_bodies(rng=None, sample=None, core_terms=('return', 'raise', 'none')):
+    """(core, rest): function bodies and their labels [(label, body)].
+    core - depth 2, no loop: every inner statement x every assignment of core_terms to its arms x every outer frame (other arms
+           of the frame falling through and returning), inner statement directly in the clause; depth 3 (outer frame around a
+           try/except or try/finally around the inner statement) with ALL arms ending in the same terminator, every frame pair;
+    rest - the full product with break/continue (a loop between the frames or around the outermost one), the in-between
+           statements if / if-else / with / while / for-else, and depth 3 with independent arms: sampled (sample=None: all)."""
+    import itertools
+    core, rest = [], []
+
+    def inner_stmt(kind, pat):
+        n, f = AA_INNER[kind]
+        return f([_arm(t) for t in pat])
+
+    def build(wrap, outers, mid, kind, pat):
+        """outers: [(table, name, t)] outermost first."""
+        blk = AA_MID[mid][0]([inner_stmt(kind, pat)])
+        for (tab, nm, t) in reversed(outers):
+            blk = [tab[nm](blk, t)]
+        return AA_WRAP[wrap][0](blk[0])
+
+    def legal(wrap, mid, pat, ts):
+        loop_in = AA_WRAP[wrap][1] or AA_MID[mid][1]
+        loop_out = AA_WRAP[wrap][1]
+        if not loop_in and any(t in ('break', 'continue') for t in pat):
+            return False
+        if not loop_out and any(t in ('break', 'continue') for t in ts):
+            return False
+        return True
+
+    def label(wrap, outers, mid, kind, pat):
+        return "%s|%s|%s|%s(%s)" % (wrap, ">".join("%s:%s" % (nm, t) for (_tab, nm, t) in outers), mid, kind, ",".join(pat))
+
+    kinds = sorted(AA_INNER)
+    # ---- core: depth 2
+    for kind in kinds:
+        for pat in itertools.product(core_terms, repeat=AA_INNER[kind][0]):
+            for on in sorted(AA_OUTER):
+                for t in ('none', 'return'):
+                    if t == 'return' and on in ('tf_body', 'tef_handler', 'with'):
+                        continue                      # these frames have no other arm
+                    o = [(AA_OUTER, on, t)]
+                    core.append((label('plain', o, 'direct', kind, pat), build('plain', o, 'direct', kind, pat)))
+    # ---- core: depth 3, uniform arms
+    for kind in kinds:
+        for term in ('return', 'raise'):
+            pat = (term,) * AA_INNER[kind][0]
+            for on in sorted(AA_OUTER):
+                for mn in sorted(AA_MIDDLE):
+                    o = [(AA_OUTER, on, term), (AA_MIDDLE, mn, term)]
+                    core.append((label('plain', o, 'direct', kind, pat), build('plain', o, 'direct', kind, pat)))
+    # ---- rest: everything else
+    seen = set(l for l, _ in core)
+    combos = []
+    for wrap in sorted(AA_WRAP):
+        for mid in sorted(AA_MID):
+            for kind in kinds:
+                for pat in itertools.product(ARM_TERMS, repeat=AA_INNER[kind][0]):
+                    for on in sorted(AA_OUTER):
+                        for t in ARM_TERMS:
+                            if t != 'none' and on in ('tf_body', 'tef_handler', 'with'):
+                                continue
+                            if legal(wrap, mid, pat, (t,)):
+                                combos.append((wrap, ((AA_OUTER, on, t),), mid, kind, pat))
+                            # depth 3: the middle frame's other arm ends like the outer frame's (one parameter less to multiply)
+                            if mid in ('direct', 'while') and AA_INNER[kind][0] <= 2:
+                                for mn in sorted(AA_MIDDLE):
+                                    for t2 in ('return', 'raise', 'none'):
+                                        if legal(wrap, mid, pat, (t, t2)):
+                                            combos.append((wrap, ((AA_OUTER, on, t), (AA_MIDDLE, mn, t2)), mid, kind, pat))
+    combos = [c for c in combos if label(*c) not in seen]
+    total = len(combos)
+    if sample is not None and rng is not None and total > sample:
+        combos = rng.sample(combos, sample)
+    for c in combos:
+        rest.append((label(*c), build(c[0], list(c[1]), c[2], c[3], c[4])))
+    return core, rest, total
